@@ -41,24 +41,23 @@ Definition round_half_even (x : Q) : Z :=
   end%Z.
 Definition second2tick_q (second : Q) (tpb tempo : Z) : Z := round_half_even (second / ((inject_Z tempo * (1 # 1000000)) / inject_Z tpb))%Q.
 
-(* ---- play(): the supplied clock only moves by what play sleeps (plus an oversleep eps >= 0) and by what the consumer holds a message (hold >= 0) ---- *)
-Open Scope Q_scope.
-Record ptick := { q_delta : Q; q_meta : bool }.
-(* returns the list of (index, clock at which the message is yielded) and performs the sleeps *)
-Fixpoint play (meta_messages : bool) (start clock input_time : Q) (k : nat) (ms : list ptick) (eps holds : list Q) : list (nat * Q) :=
+(* ---- play(): the supplied clock only moves by what play sleeps (plus an oversleep eps >= 0) and by what the consumer holds
+   a message (hold >= 0).  Times are integers in one arbitrary fixed unit (any finite set of rational times has one). ---- *)
+Record ptick := { q_delta : Z; q_meta : bool }.
+(* returns the list of (index, clock at which the message is yielded) *)
+Fixpoint play (meta_messages : bool) (start clock input_time : Z) (k : nat) (ms : list ptick) (eps holds : list Z) : list (nat * Z) :=
   match ms with
   | [] => []
   | m :: r =>
       let input_time' := input_time + q_delta m in
       let playback := clock - start in
       let dur := input_time' - playback in
-      let e := hd 0%Q eps in
-      let clock1 := if Qlt_le_dec 0 dur then clock + dur + e else clock in
-      let eps' := if Qlt_le_dec 0 dur then tl eps else eps in
+      let clock1 := if 0 <? dur then clock + dur + hd 0 eps else clock in          (* time.sleep(duration_to_next_event) *)
+      let eps' := if 0 <? dur then tl eps else eps in
       if q_meta m && negb meta_messages
       then play meta_messages start clock1 input_time' (S k) r eps' holds
-      else (k, clock1) :: play meta_messages start (clock1 + hd 0%Q holds) input_time' (S k) r eps' (tl holds)
+      else (k, clock1) :: play meta_messages start (clock1 + hd 0 holds) input_time' (S k) r eps' (tl holds)
   end.
 (* the scheduled time of every message: cumulative delta *)
-Fixpoint sched (acc : Q) (ms : list ptick) : list Q :=
+Fixpoint sched (acc : Z) (ms : list ptick) : list Z :=
   match ms with [] => [] | m :: r => (acc + q_delta m) :: sched (acc + q_delta m) r end.
